@@ -67,6 +67,11 @@ type Buffer struct {
 	// committedData holds the data as it was when it was
 	// successfully committed.
 	committedData []byte
+
+	// commitMu serializes calls to Commit, so that the commit
+	// callback always sees the state established by its own commit check.
+	// It's acquired before mu.
+	commitMu sync.Mutex
 }
 
 // NewBuffer returns a buffer that calls commit with the
@@ -163,6 +168,8 @@ func (b *Buffer) ID() string {
 // Commit implements [ociregistry.BlobWriter.Commit] by checking
 // that everything looks OK and calling the commit function if so.
 func (b *Buffer) Commit(dig ociregistry.Digest) (_ ociregistry.Descriptor, err error) {
+	b.commitMu.Lock()
+	defer b.commitMu.Unlock()
 	desc, err := b.checkCommit(dig)
 	if err != nil {
 		return ociregistry.Descriptor{}, err
